@@ -15,10 +15,8 @@ Lemma inv_finish_ok s i w k :
 Proof.
   intros HI He Hpc Hw Hk. unfold finish_ok.
   destruct (a_ref (act s i)) as [j|] eqn:Hr.
-  - own HI j i. Time solve_inv HI.
-    all: idtac "FINOK1 REMAINING". Show.
-  - Time solve_inv HI.
-    all: idtac "FINOK2 REMAINING". Show.
+  - own HI j i. solve_inv HI.
+  - solve_inv HI.
 Qed.
 
 Lemma inv_finish_err s i w e :
@@ -29,15 +27,11 @@ Proof.
   intros HI He Hpc Hw. unfold finish_err.
   destruct (a_ref (act s i)) as [j|] eqn:Hr.
   - own HI j i. destruct Hw as [[-> ->]|[-> Hc]].
-    + Time solve_inv HI.
-      all: idtac "FINERR1 REMAINING". Show.
-    + Time solve_inv HI.
-      all: idtac "FINERR2 REMAINING". Show.
+    + solve_inv HI.
+    + solve_inv HI.
   - destruct Hw as [[-> ->]|[-> Hc]].
-    + Time solve_inv HI.
-      all: idtac "FINERR3 REMAINING". Show.
-    + Time solve_inv HI.
-      all: idtac "FINERR4 REMAINING". Show.
+    + solve_inv HI.
+    + solve_inv HI.
 Qed.
 
 Lemma inv_ans s i w s' :
@@ -56,7 +50,6 @@ Qed.
 Lemma inv_cancel s i :
   Inv s -> exists_b i = true -> Inv (with_act s i (set_cancel (act s i))).
 Proof.
-  intros HI He. Time solve_inv HI.
-  all: idtac "CANCEL REMAINING". Show.
+  intros HI He. solve_inv HI.
 Qed.
 End S.
